@@ -544,6 +544,9 @@ static const struct seqs SEQS[] = {
     /* the standard gamma sampler called directly: documented (and asserted) for every shape > 0 */
     { "std_gamma(2.5)", 24, 2.5, 1, 0, 0, S_NONNEG }, { "std_gamma(0.5)", 24, 0.5, 1, 0, 0, S_NONNEG },
     { "std_gamma(0.2)", 24, 0.2, 1, 0, 0, S_NONNEG },
+    /* shape parameters so small that both gamma variates underflow */
+    { "std_beta(0.001,0.001)", 25, 0.001, 0.001, 0, 0, S_UNIT }, { "std_beta(0.001,3)", 25, 0.001, 3, 0, 0, S_UNIT },
+    { "gamma(0.001,1)", 26, 0.001, 1, 0, 0, S_NONNEG },
 };
 #define NSEQS ((int)(sizeof SEQS / sizeof SEQS[0]))
 
@@ -561,6 +564,8 @@ static double lib_call(const struct seqs *s)
     case 8: return cmb_random_hyperexponential(3, HM, HP);
     case 9: return cmb_random_gamma(s->a, s->b);
     case 24: return cmb_random_std_gamma(s->a);
+    case 25: return cmb_random_std_beta(s->a, s->b);
+    case 26: return cmb_random_gamma(s->a, s->b);
     case 10: return cmb_random_std_beta(s->a, s->b);
     case 11: return cmb_random_beta(s->a, s->b, s->c, s->d);
     case 12: return cmb_random_PERT(s->a, s->b, s->c);
@@ -794,6 +799,118 @@ static void run_aliasvec(void)
     cmb_random_alias_destroy(al);
 }
 
+
+/*
+ * The slow path of the two ziggurat samplers, decided by lattice integration: the sample is a function of the
+ * raw words, which are independent and uniform. The hot path (first word's low byte <= zig_max) is a uniform
+ * variate on an interval given by the table, so its density is known exactly; what the slow path produces must
+ * therefore be distributed as the REST of the stated density, r(x) = p(x) - hot(x). Every first word that goes
+ * to the slow path (each slow low byte x a lattice of its upper bits, both signs for the normal), every second
+ * word (all 256 low bytes x a lattice of the upper bits) and a lattice of third words is enumerated with its
+ * product weight; further words follow a fixed continuation seeded by the cell. The weighted histogram of the
+ * results is compared, cumulatively, with the integral of r.
+ */
+static double std_normal_cdf(double x)
+{
+    return 0.5 * erfc(-x / sqrt(2.0));
+}
+
+static void run_zigslow(void)
+{
+    const int which = vx_choose_free(2, "sampler"); /* 0 exponential, 1 normal */
+    const int M1 = (int)vx_opt_int("m1", 64), M2 = (int)vx_opt_int("m2", 32), M3 = (int)vx_opt_int("m3", 16);
+    const unsigned zmax = which == 0 ? vx_exp_zig_max : vx_nor_zig_max;
+    const double *px = which == 0 ? vx_exp_zig_pdf_x : vx_nor_zig_pdf_x;
+    const double lo = which == 0 ? 0.0 : -6.0, hi = which == 0 ? 12.0 : 6.0, bw = 0.05;
+    const int NB = (int)((hi - lo) / bw + 0.5);
+    static double lat[400], ref[400];
+    memset(lat, 0, sizeof lat);
+    memset(ref, 0, sizeof ref);
+    const double slow_mass = (255.0 - zmax) / 256.0;
+    /* reference: integral of the stated density minus the hot path's share, per bin */
+    for (int b = 0; b < NB; b++) {
+        const double a = lo + b * bw, c = a + bw;
+        double p = which == 0 ? exp(-a) - exp(-c) : std_normal_cdf(c) - std_normal_cdf(a);
+        double hot = 0;
+        for (unsigned i = 0; i <= zmax; i++) {
+            const double L = ldexp(px[i], which == 0 ? 64 : 63);
+            const double s0 = which == 0 ? 0.0 : -L, s1 = L;
+            const double u0 = a > s0 ? a : s0, u1 = c < s1 ? c : s1;
+            if (u1 > u0) {
+                hot += (u1 - u0) / (s1 - s0) / 256.0;
+            }
+        }
+        ref[b] = p - hot;
+    }
+    cmi_verif_sfc64_override = override_fn;
+    const int nsign = which == 0 ? 1 : 2;
+    const double wcell = 1.0 / 256.0 / M1 / nsign / 256.0 / M2 / M3;
+    double outside = 0;
+    for (unsigned b1 = zmax + 1; b1 <= 255; b1++) {
+        for (int sg = 0; sg < nsign; sg++) {
+            for (int k1 = 0; k1 < M1; k1++) {
+                uint64_t w1;
+                if (which == 0) {
+                    w1 = (uint64_t)(((double)k1 + 0.5) / M1 * 18446744073709551616.0);
+                }
+                else {
+                    w1 = (uint64_t)(((double)k1 + 0.5) / M1 * 9223372036854775808.0) | ((uint64_t)sg << 63);
+                }
+                w1 = (w1 & ~0xffull) | b1;
+                for (unsigned b2 = 0; b2 < 256; b2++) {
+                    for (int k2 = 0; k2 < M2; k2++) {
+                        const uint64_t w2 = (((uint64_t)(((double)k2 + 0.5) / M2 * 18446744073709551616.0)) & ~0xffull) | b2;
+                        for (int k3 = 0; k3 < M3; k3++) {
+                            const uint64_t w3 = (uint64_t)(((double)k3 + 0.5) / M3 * 18446744073709551616.0);
+                            script[0] = w1;
+                            script[1] = w2;
+                            script[2] = w3;
+                            script_n = 3;
+                            env_reset();
+                            cont_state = vx_mix(vx_mix(w1, w2), w3);
+                            const double x = which == 0 ? cmb_random_std_exponential() : cmb_random_std_normal();
+                            const int bin = (int)floor((x - lo) / bw);
+                            if (!(x >= lo) || bin >= NB || runaway) {
+                                outside += wcell;
+                            }
+                            else {
+                                lat[bin] += wcell;
+                            }
+                        }
+                    }
+                }
+            }
+        }
+    }
+    cmi_verif_sfc64_override = NULL;
+    vx_transitions((uint64_t)(255 - zmax) * (uint64_t)nsign * (uint64_t)M1 * 256u * (uint64_t)M2 * (uint64_t)M3);
+    /* cumulative comparison, in units of the slow path's mass */
+    double cum = 0, worst = 0, worst_at = lo;
+    for (int b = 0; b < NB; b++) {
+        cum += lat[b] - ref[b];
+        if (fabs(cum) > fabs(worst)) {
+            worst = cum;
+            worst_at = lo + (b + 1) * bw;
+        }
+    }
+    const double tol = vx_opt_int("tolppm", 8000) * 1e-6;
+    vx_trace("%s: slow-path mass %.6g, lattice mass in range %.6g (outside %.3g), largest cumulative difference %.3g of the "
+             "slow mass at x=%.2f\n", which == 0 ? "std_exponential" : "std_normal", slow_mass, slow_mass - outside, outside,
+             worst / slow_mass, worst_at);
+    vx_state((uint64_t)which);
+    {
+        const double q = floor(worst / slow_mass * 1e4);
+        vx_outcome(vx_hash_bytes((uint64_t)which, &q, 8));
+    }
+    if (fabs(worst) > tol * slow_mass) {
+        char rule[120];
+        snprintf(rule, sizeof rule, "zigslow:%s:slow-path-not-the-rest-of-the-density", which == 0 ? "std_exponential" : "std_normal");
+        FAIL(rule, "integrated over all raw words that take the slow path, P(X < %.2f) differs from what the stated density "
+             "leaves for the slow path by %.3g of the slow path's mass %.4g (lattice %d x 256x%d x %d; tolerance %.3g)",
+             worst_at, worst / slow_mass, slow_mass, M1, M2, M3, tol);
+    }
+}
+
 static void run_seq(void)
 {
     const int K = (int)vx_opt_int("K", 2);
@@ -870,6 +987,7 @@ static void run_one(void)
     if (!strcmp(mode, "tables")) run_tables();
     else if (!strcmp(mode, "lattice")) run_lattice();
     else if (!strcmp(mode, "aliasvec")) run_aliasvec();
+    else if (!strcmp(mode, "zigslow")) run_zigslow();
     else run_seq();
 }
 
